@@ -329,7 +329,7 @@ fn pipe_pair() -> Result<(OwnedFd, OwnedFd), String> {
 }
 
 fn run_fd(t: &mut Tape, cx: &mut Cx) -> Result<(), String> {
-    let adapter = t.below(7);
+    let adapter = t.below(9);
     let slen = t.idx(41);
     let content = t.bytes(slen);
     let ncalls = 1 + t.idx(5);
@@ -481,6 +481,64 @@ fn run_fd(t: &mut Tape, cx: &mut Cx) -> Result<(), String> {
                 let rs = sr_f.read(&mut b.sbuf);
                 let n = cmp_count(&what, &rv, &rs)?;
                 b.check_read(&what, n)?;
+            }
+        }
+        7 | 8 => {
+            // a descriptor that delivers its data in several short reads (datagrams of 1..9
+            // bytes, non-blocking): one exact read is satisfied by 2 or more non-empty reads
+            use std::os::unix::net::UnixDatagram;
+            let mk = || -> Result<(UnixDatagram, OwnedFd), String> {
+                let (a, b) = UnixDatagram::pair().map_err(|e| e.to_string())?;
+                b.set_nonblocking(true).map_err(|e| e.to_string())?;
+                Ok((a, OwnedFd::from(b)))
+            };
+            let (vs_tx, mut vfd) = mk()?;
+            let (ss_tx, sfd) = mk()?;
+            let mut sfile = std::fs::File::from(sfd);
+            cx.label("datagram_fd");
+            let n = 1 + t.idx(5);
+            let mut sizes = Vec::new();
+            let mut off = 0usize;
+            let data = t.bytes(64);
+            for _ in 0..n {
+                let k = 1 + t.idx(9);
+                vs_tx.send(&data[off..off + k]).map_err(|e| e.to_string())?;
+                ss_tx.send(&data[off..off + k]).map_err(|e| e.to_string())?;
+                sizes.push(k);
+                off += k;
+            }
+            note!(cx, "datagram fd with chunks {:?}", sizes);
+            for c in 0..ncalls {
+                // buffer lengths that are sums of the first chunks (exact fills from several reads)
+                let j = 1 + t.idx(sizes.len());
+                let bl = if t.flag() { sizes[..j].iter().sum::<usize>() } else { buflen(t) };
+                let mut b = Bufs::new(bl, t, false);
+                let exact = adapter == 8 || t.flag();
+                let what = format!("datagram fd.{}(buf {})", if exact { "read_exact" } else { "read" }, bl);
+                note!(cx, "{}", what);
+                classify(cx, bl, usize::MAX, c, false);
+                if exact {
+                    let rv = vfd.read_exact_volatile(&mut b.fr.slice());
+                    let rs = sfile.read_exact(&mut b.sbuf);
+                    let ok = cmp_unit(&what, &rv, &rs)?;
+                    if ok {
+                        b.check_read(&what, Some(bl))?;
+                        if j >= 2 {
+                            cx.nt("exact_read_from_several_short_reads");
+                        }
+                    } else {
+                        b.fr.canaries_ok()?;
+                        break;
+                    }
+                } else {
+                    let rv = vfd.read_volatile(&mut b.fr.slice());
+                    let rs = sfile.read(&mut b.sbuf);
+                    let nn = cmp_count(&what, &rv, &rs)?;
+                    b.check_read(&what, nn)?;
+                    if nn.is_none() {
+                        break;
+                    }
+                }
             }
         }
         _ => {
